@@ -74,6 +74,12 @@ def smooth_models(draw):
     # one Newton iteration with a *converged* line search (50 iterations, ls_tolerance 1e-9): a truncated line search
     # makes the solver output a discontinuous function of its inputs (observed: jumps of 1e2 in qvel' over 2e-6)
     gm.xml = add_far_plane(gm.xml)
+    if not FINDINGS:
+      # candidate finding F24: with frictionloss rows (piecewise cost) the bracketing line search returns bisection
+      # mid-points; AD differentiates those iterates and was measured up to 1.7e-2 (relative) away from three mutually
+      # consistent central differences of the same function, independently of ls_tolerance.  Without frictionloss the
+      # cost is quadratic unless a limit changes state and the Newton step needs no bracketing.
+      gm.xml = re.sub(r' frictionloss="[^"]*"', '', gm.xml)
   gm.info['labels'] = sorted(set(gm.info['labels']) | {'family:' + fam})
   gm.info['family'] = fam
   return gm
